@@ -1,3 +1,4 @@
 pub mod chart;
 pub mod lex;
+pub mod listing;
 pub mod subst;
